@@ -88,6 +88,13 @@ pub fn model_step(bits: &[u8], pos: usize, e: En, zext: bool, op: &ROp) -> Optio
             Some(Expect::Unit(*p as usize))
         }
         ROp::CloneSwitch => Some(Expect::Unit(pos)),
+        ROp::PastEnd => {
+            if zext || pos + 64 <= len {
+                None
+            } else {
+                Some(Expect::Unit(pos))
+            }
+        }
     }
 }
 
@@ -120,6 +127,11 @@ pub fn check(prop_tag: &str, c: &RCase, rep: &mut Report, track_fill: bool) -> O
     if out.completed {
         rep.sample(|| format!("{} ; final position {}", c.to_kv(), out.final_pos));
     }
+    // unwrap the reader through the library's into_inner (the second unsafe block of the crate)
+    let r = h.r;
+    if let Out::Panic(p) = guard_v(move || r.consume()) {
+        rep.violation(&format!("{}|{}|into_inner|panic[{}]", c.cfg.e.name(), c.cfg.kind.name(), panic_kind(&p)), || format!("into_inner of the reader panicked: {}", p), &kv);
+    }
     out
 }
 
@@ -136,7 +148,11 @@ pub fn run_ops(prop_tag: &str, h: &mut ReaderHandle, bits: &[u8], start: usize, 
     let mut parked: Vec<(Box<dyn DynReader>, usize)> = vec![];
     let sigbase = format!("{}|{}|{}", e.name(), cfg.kind.name(), if zext { "zext" } else { "strict" });
     let be_name = cfg.be.name();
+    let mut lost = false; // after a read past the end the state is unspecified until a seek
     for (i, op) in ops.iter().enumerate() {
+        if lost && !matches!(op, ROp::Seek(_)) {
+            continue;
+        }
         let exp = match model_step(bits, pos, e, zext, op) {
             Some(x) => x,
             None => {
@@ -230,6 +246,15 @@ pub fn run_ops(prop_tag: &str, h: &mut ReaderHandle, bits: &[u8], start: usize, 
                     Out::Ok(()) => {}
                     o => fail!(format!("set_bit_pos({}) = {} (stream has {} bits)", p, o.show(), bits.len()), o.class()),
                 }
+                fill_valid = false;
+                lost = false;
+            }
+            ROp::PastEnd => {
+                // only a panic is judged here (whether it errs is C09's property)
+                if let Out::Panic(p) = guard(|| h.r.read_bits(64)) {
+                    fail!(format!("read past the end panicked: {}", p), format!("panic[{}]", panic_kind(&p)));
+                }
+                lost = true;
                 fill_valid = false;
             }
             ROp::CloneSwitch => match h.r.try_clone() {
@@ -327,6 +352,13 @@ pub fn gen_history(rng: &mut Rng, cfg: RCfg, image: &[u8], len: usize, o: &GenOp
         } else {
             ROp::Read(rng.below(65) as usize)
         };
+        if !zext && o.seeks && rng.chance(1, 30) && pos + 64 > total {
+            ops.push(ROp::PastEnd);
+            let p = rng.below(total as u64 + 1);
+            ops.push(ROp::Seek(p));
+            pos = p as usize;
+            continue;
+        }
         // keep zero-extended positions from running away too far
         if zext && pos > total + 4 * w {
             if o.seeks {
